@@ -185,6 +185,15 @@ func (d *c19db) write(b *c19block) error {
 		if err != nil {
 			return err
 		}
+		// with a state cache in the permanent database, every other block writer gets a (tiny) state cache
+		// of its own, as the block importer of launch gives it one
+		if x.stcache > 0 && b.Height%2 == 1 {
+			if sw, ok := w.(interface {
+				SetStateCache(util.GCache[string, [2]interface{}])
+			}); ok {
+				sw.SetStateCache(util.NewLRUGCache[string, [2]interface{}](1))
+			}
+		}
 		if err := w.SetBlockMap(m); err != nil {
 			return err
 		}
